@@ -579,6 +579,8 @@ Definition k_is_idle (k : kstate) : bool :=
   let pressed_keys_means_not_idle := negb (match k_waiting_for_idle k with [] => true | _ => false end) || k_live_reload_requested k in
   (match queue l with [] => true | _ => false end)
   && (match waiting_ l with None => true | _ => false end)
+  && (match extra_waiting l with [] => true | _ => false end)
+  && (os_pause_ticks (oneshot l) =? 0)
   && (lpt_timeout l =? 0)
   && ((os_timeout (oneshot l) =? 0) || (match os_keys (oneshot l) with [] => true | _ => false end))
   && (match active_sequences l with [] => true | _ => false end)
